@@ -107,29 +107,24 @@ Fixpoint cli_mismatches_from (i : nat) (cs : list cli_case) : list (nat * list n
   end.
 
 (* ------------------------------------------------------------------ classifiers of known findings *)
-(* D7: status compares table-name sets only: every project whose baseline and models have the same
-   table names is reported "synchronized" whatever else differs *)
-Definition known_C13_status_names_only (P : project) : bool :=
-  match load_models P, load_migrations P with
-  | Ok models, Ok (p :: ps) =>
-      match replay (p :: ps) with
-      | Ok baseline => same_name_set (map t_name baseline) (map t_name models)
-      | Err _ => false
-      end
-  | _, _ => false
-  end.
-
 (* D8: `sql` prefixes the stored plans (hence its baseline) but not the models *)
 Definition known_C13_sql_prefix (P : project) : bool :=
   (negb (String.eqb (pj_prefix P) "") && negb (is_nil (pj_migrations P)))%bool.
 
-(* D6: revision wrote ModifyColumnNullable{nullable:false} without fill_with (the column has a
-   default, so nothing was asked), and validate_migration_plan rejects the file on the next load *)
-Definition unfilled_not_null (a : action) : bool :=
-  match a with ModifyColumnNullable _ _ false None => true | _ => false end.
-Definition known_C13_unfilled_not_null (c : cli_case) : bool :=
+(* a fill value given on the command line for a new enum column is written without being checked against the
+   enum's values; validate_migration_plan rejects the written file on the next load *)
+Definition bad_enum_fill (a : action) : bool :=
+  match a with
+  | AddColumn t c (Some f) =>
+      match c_type c with
+      | TEnum _ values => match validate_enum_value f values t (c_name c) with Ok _ => false | Err _ => true end
+      | _ => false
+      end
+  | _ => false
+  end.
+Definition known_C13_invalid_enum_fill (c : cli_case) : bool :=
   match cmd_revision (cc_project c) (cc_message c) (cc_fills c) (env_of c) with
-  | Ok (RevWrote _ p) => existsb unfilled_not_null (p_actions p)
+  | Ok (RevWrote _ p) => existsb bad_enum_fill (p_actions p)
   | _ => false
   end.
 
@@ -159,6 +154,5 @@ Definition known_C13_version_saturated (P : project) : bool :=
   N.eqb (max_version P) u32_max.
 
 Definition classify_cli (c : cli_case) : list bool :=
-  [known_C13_status_names_only (cc_project c); known_C13_sql_prefix (cc_project c);
-   known_C13_unfilled_not_null c; known_C13_pattern_without_version (cc_project c);
-   known_C13_version_saturated (cc_project c)].
+  [known_C13_sql_prefix (cc_project c); known_C13_invalid_enum_fill c;
+   known_C13_pattern_without_version (cc_project c); known_C13_version_saturated (cc_project c)].
